@@ -76,6 +76,10 @@ SCENES = [
     (2, 3, 2, 7),        # zero width  -> widened to (2,3,3,7)
     (-1, 5, 7, 5),       # zero height -> widened
     (2, 3, 2, 3),        # both
+    # small extents far from the origin (an approximate "is the extent degenerate" test would misfire)
+    (2 ** 20, -(2 ** 20), 2 ** 20 + 8, -(2 ** 20) + 8),
+    (2 ** 25, 2 ** 25 - 2, 2 ** 25 + 1, 2 ** 25),
+    (-(2 ** 25), 7, -(2 ** 25) + 0.5, 7.25),
 ]
 
 
